@@ -1,9 +1,9 @@
 ---------------------------- MODULE SimMechTrace ----------------------------
 (***************************************************************************)
 (* Conformance of the real simulator with the mechanism SimMech: the hook   *)
-(* records fired / ev / act / exit of real runs (sim_driver --mech-out,     *)
-(* scenarios without pps limit and without aggregate delays, which SimMech  *)
-(* does not model) must be explained step by step: every `fired` line is an *)
+(* records fired / ev / act / exit of real runs (sim_driver --mech-out; the   *)
+(* amounts of aggregate delays and bottleneck delays are read from the log, *)
+(* what happens to them is modelled) must be explained step by step: every `fired` line is an *)
 (* enabled timer / action firing at that time, every `ev` line an enabled   *)
 (* blocking expiry or queue pop with exactly those fields, the `act` lines  *)
 (* that follow are taken as the framework oracle's answer, and the lines    *)
@@ -38,7 +38,9 @@ AnyOracle(z, s) == {}     \* not used: choices are read from the trace
 Matches(e, ln) == e.e = ln.e /\ e.m = ln.m /\ e.p = ln.p /\ e.bp = ln.bp /\ e.rp = ln.rp
 
 \* the step the recorded lines describe, or a "none" choice when nothing enabled matches
-ChoiceOf(ln) ==
+None == Choice("none", 1, 0, NoEv, <<>>)
+ChoiceOf ==
+  LET ln == Line(l) IN
   CASE ln.k = "fired" ->
          LET kind == IF ln.w = "timer" THEN "timer" ELSE "action"
              c == Choice(kind, SideOf(ln.c), ln.m + 1, NoEv, <<>>)
@@ -46,20 +48,38 @@ ChoiceOf(ln) ==
                       ELSE {x \in ActCands(Z) : Z.sd[x[1]].act[x[2]].due = ST(Z)}
              enabled == ~Z.done /\ ~Nothing(Z) /\ (IF kind = "timer" THEN TimerNext(Z) ELSE ActionNext(Z))
                         /\ <<c.s, c.i>> \in cands
-         IN IF enabled THEN c ELSE Choice("none", 1, 0, NoEv, <<>>)
+         IN IF enabled THEN c ELSE None
+    [] ln.k = "aggpop" ->
+         LET C == {x \in Z.pending : AtLeastNow(Z, x.t) = NT(Z) /\ x.s = SideOf(ln.c) /\ x.d = ln.d}
+         IN IF ~Z.done /\ ~Nothing(Z) /\ AggFirst(Z) /\ C # {}
+            THEN Choice("aggpop", SideOf(ln.c), (CHOOSE x \in C : TRUE).id, NoEv, <<>>) ELSE None
+    [] ln.k = "agg" ->
+         \* an aggregate delay pushed by a blocking expiry: the BlockingEnd event follows
+         IF Has(l + 1) /\ Line(l + 1).k = "ev" /\ Line(l + 1).e = "BlockingEnd"
+            /\ ~Z.done /\ ~Nothing(Z) /\ BlkFirst(Z) /\ BlkSide(Z) = SideOf(Line(l + 1).c)
+         THEN [Choice("blk", SideOf(Line(l + 1).c), 0, NoEv,
+                      OracleOf(ActsFrom(l + 2), NMach(Z, SideOf(Line(l + 1).c)))) EXCEPT !.agg = ln.d]
+         ELSE None
     [] ln.k = "ev" ->
          LET s == SideOf(ln.c)
-             f == OracleOf(ActsFrom(l + 1), NMach(Z, s))
-         IN IF Z.done \/ Nothing(Z) THEN Choice("none", 1, 0, NoEv, <<>>)
+             hasAgg == Has(l + 1) /\ Line(l + 1).k = "agg"
+             ri == IF hasAgg THEN l + 2 ELSE l + 1
+             hasRecv == Has(ri) /\ Line(ri).k = "recv"
+             ai == IF hasRecv THEN ri + 1 ELSE ri
+             f == OracleOf(ActsFrom(ai), NMach(Z, s))
+         IN IF Z.done \/ Nothing(Z) THEN None
             ELSE IF ln.e = "BlockingEnd"
-            THEN (IF BlkFirst(Z) /\ BlkSide(Z) = s THEN Choice("blk", s, 0, NoEv, f)
-                  ELSE Choice("none", 1, 0, NoEv, <<>>))
+            THEN (IF BlkFirst(Z) /\ BlkSide(Z) = s THEN Choice("blk", s, 0, NoEv, OracleOf(ActsFrom(l + 1), NMach(Z, s)))
+                  ELSE None)
             ELSE LET C == {c \in QueueCands(Z) : c[1] = s /\ Matches(c[2], ln)}
-                 IN IF QueueNext(Z) /\ C # {} THEN Choice("queue", s, 0, (CHOOSE c \in C : TRUE)[2], f)
-                    ELSE Choice("none", 1, 0, NoEv, <<>>)
+                 IN IF QueueNext(Z) /\ C # {}
+                    THEN [Choice("queue", s, 0, (CHOOSE c \in C : TRUE)[2], f) EXCEPT
+                            !.agg = IF hasAgg THEN Line(l + 1).d ELSE -1,
+                            !.extra = IF hasRecv /\ ln.e = "TunnelSent" THEN Line(ri).t - (ln.t + Z.cf.delay) ELSE 0]
+                    ELSE None
     [] ln.k = "exit" ->
-         IF ~Z.done /\ Nothing(Z) THEN Choice("finish", 1, 0, NoEv, <<>>) ELSE Choice("none", 1, 0, NoEv, <<>>)
-    [] OTHER -> Choice("none", 1, 0, NoEv, <<>>)
+         IF ~Z.done /\ Nothing(Z) THEN Choice("finish", 1, 0, NoEv, <<>>) ELSE None
+    [] OTHER -> None
 
 Explains(r) ==
   /\ l + Len(r.lines) - 1 <= Len(Rec)
@@ -89,9 +109,9 @@ Over ==
   /\ l' = NextReset(l) /\ stats' = [stats EXCEPT !.finished = @ + 1]
   /\ UNCHANGED <<Z, sid, ok>>
 Lockstep ==
-  /\ Has(l) /\ Line(l).k \in {"fired", "ev", "exit"}
+  /\ Has(l) /\ Line(l).k \in {"fired", "ev", "exit", "agg", "aggpop", "recv"}
   /\ ~(Line(l).k = "exit" /\ (Z.done \/ Line(l).reason \in {"max_sim_iterations", "max_trace_length"}))
-  /\ LET c == ChoiceOf(Line(l))
+  /\ LET c == ChoiceOf
          r == ZStep(Z, c)
      IN IF c.kind # "none" /\ Explains(r)
         THEN /\ Z' = r.Z /\ l' = l + Len(r.lines)
